@@ -10,4 +10,4 @@ LINK_NOTE = "Modulator-link stage: the real S2M/M2S dispatchers (crates/modulato
 
 def run(tier, replay=None):
     import c05
-    return srvprops.run(PROP, THEOREMS, tier, replay, extra_gen=c05.interleaved_histories, link=("link",), rule_note=LINK_NOTE + " Plus interleaved histories (a clean-up suspended in the modulator while the same name signs in again, joins and leaves race) ending with a pushed direct payload to every user.")
+    return srvprops.run(PROP, THEOREMS, tier, replay, extra_gen=c05.interleaved_histories, link=("link", "client"), rule_note=LINK_NOTE + " Plus interleaved histories (a clean-up suspended in the modulator while the same name signs in again, joins and leaves race) ending with a pushed direct payload to every user.")
